@@ -29,6 +29,11 @@ class Env:
 
     def resolve(self, alias, col):
         hits = [p for a, c, p in self.cols if c == col and (alias is None or a == alias)]
+        # SQLite compares column names case-insensitively (also when quoted); of two columns of a
+        # derived table whose names differ only in case the FIRST one is taken (observed, 3.40)
+        ci = [p for a, c, p in self.cols if c.lower() == col.lower() and (alias is None or a == alias)]
+        if len(ci) > len(hits):
+            return ci[0]
         if len(hits) != 1:
             raise Unsupported(f"column reference {alias}.{col}: {len(hits)} candidates")
         return hits[0]
